@@ -645,10 +645,11 @@ class ActionCommand(Command):
                         unquote = True
                         break
             if unquote:
-                if "," in value:
-                    args += tools.to_list(value)
+                value = tools.argument_to_python(value)
+                if isinstance(value, list):
+                    args += value
                 else:
-                    args.append(value.strip('"'))
+                    args.append(value)
                 continue
             args.append(value)
         return (self.name,) + tuple(args)
@@ -799,22 +800,11 @@ class EnvelopeCommand(TestCommand):
     def args_as_tuple(self):
         """Return arguments as a list."""
         result = ("envelope", self.arguments["match-type"])
-        value = self.arguments["header-list"]
-        if isinstance(value, list):
-            # FIXME
-            value = "[{}]".format(",".join('"{}"'.format(item) for item in value))
-        if value.startswith("["):
-            result += (tools.to_list(value),)
-        else:
-            result += ([value.strip('"')],)
-        value = self.arguments["key-list"]
-        if isinstance(value, list):
-            # FIXME
-            value = "[{}]".format(",".join('"{}"'.format(item) for item in value))
-        if value.startswith("["):
-            result += (tools.to_list(value),)
-        else:
-            result = result + ([value.strip('"')],)
+        for name in ["header-list", "key-list"]:
+            value = tools.argument_to_python(self.arguments[name])
+            if not isinstance(value, list):
+                value = [value]
+            result += (value,)
         return result
 
 
@@ -830,12 +820,10 @@ class ExistsCommand(TestCommand):
         parser. Il faut uniformiser tout ça !!
 
         """
-        value = self.arguments["header-names"]
-        if isinstance(value, list):
-            value = "[{}]".format(",".join('"{}"'.format(item) for item in value))
-        if not value.startswith("["):
-            return ("exists", value.strip('"'))
-        return ("exists",) + tuple(tools.to_list(value))
+        value = tools.argument_to_python(self.arguments["header-names"])
+        if not isinstance(value, list):
+            return ("exists", value)
+        return ("exists",) + tuple(value)
 
 
 class TrueCommand(TestCommand):
@@ -856,17 +844,11 @@ class HeaderCommand(TestCommand):
 
     def args_as_tuple(self):
         """Return arguments as a list."""
-        if "," in self.arguments["header-names"]:
-            result = tuple(tools.to_list(self.arguments["header-names"]))
-        else:
-            result = (self.arguments["header-names"].strip('"'),)
+        value = tools.argument_to_python(self.arguments["header-names"])
+        result = tuple(value) if isinstance(value, list) else (value,)
         result = result + (self.arguments["match-type"],)
-        if "," in self.arguments["key-list"]:
-            result = result + tuple(
-                tools.to_list(self.arguments["key-list"], unquote=False)
-            )
-        else:
-            result = result + (self.arguments["key-list"].strip('"'),)
+        value = tools.argument_to_python(self.arguments["key-list"])
+        result = result + (tuple(value) if isinstance(value, list) else (value,))
         return result
 
 
@@ -897,14 +879,8 @@ class BodyCommand(TestCommand):
             self.arguments["body-transform"],
             self.arguments["match-type"],
         )
-        value = self.arguments["key-list"]
-        if isinstance(value, list):
-            # FIXME
-            value = "[{}]".format(",".join('"{}"'.format(item) for item in value))
-        if value.startswith("["):
-            result += tuple(tools.to_list(value))
-        else:
-            result += (value.strip('"'),)
+        value = tools.argument_to_python(self.arguments["key-list"])
+        result += tuple(value) if isinstance(value, list) else (value,)
         return result
 
 
@@ -1003,20 +979,14 @@ class CurrentdateCommand(TestCommand):
         result = ("currentdate",)
         result += (
             ":zone",
-            self.extra_arguments["zone"].strip('"'),
+            tools.unquote_string(self.extra_arguments["zone"]),
             self.arguments["match-type"],
         )
         if self.arguments["match-type"] in [":count", ":value"]:
-            result += (self.extra_arguments["match-type"].strip('"'),)
-        result += (self.arguments["date-part"].strip('"'),)
-        value = self.arguments["key-list"]
-        if isinstance(value, list):
-            # FIXME
-            value = "[{}]".format(",".join('"{}"'.format(item) for item in value))
-        if value.startswith("["):
-            result = result + tuple(tools.to_list(value))
-        else:
-            result = result + (value.strip('"'),)
+            result += (tools.unquote_string(self.extra_arguments["match-type"]),)
+        result += (tools.unquote_string(self.arguments["date-part"]),)
+        value = tools.argument_to_python(self.arguments["key-list"])
+        result += tuple(value) if isinstance(value, list) else (value,)
         return result
 
 
